@@ -14,14 +14,14 @@ from xmlschema import converters
 from engine.sym import pick
 
 ID = "C17"
-U = {"u1": "urn:u1", "u2": "urn:u2"}
+U = {"u1": "urn:u1", "u2": "urn:u2", "": ""}
 CFG = {"qroot": 0, "converter": "default", "mode": "stacked", "ndecl": 5, "nan": 3, "ncn": 2, "deepc": False}
 
 _XSD = """<xs:schema xmlns:xs="http://www.w3.org/2001/XMLSchema" targetNamespace="urn:u1">
   <xs:element name="n" type="xs:anyType"/></xs:schema>"""
 SCHEMA = xmlschema.XMLSchema10(_XSD)
 
-DECLS = [None, ("p", "u2"), ("q", "u1"), ("q", "u2"), ("", "u2"), ("", "u1"), ("p", "u1")]
+DECLS = [None, ("p", "u2"), ("q", "u1"), ("q", "u2"), ("", "u2"), ("", ""), ("", "u1"), ("p", "u1")]          # ("", "") is xmlns="" (the default namespace is undeclared)
 QROOT = [None, ("q", "u1"), ("q", "u2")]
 CONV = {"default": converters.XMLSchemaConverter, "badgerfish": converters.BadgerFishConverter, "jsonml": converters.JsonMLConverter}
 
@@ -264,7 +264,7 @@ META = {
 def obligations(tier, seed):
     quick = tier == "quick"
     out = []
-    nd = 5 if quick else len(DECLS)
+    nd = 6 if quick else len(DECLS)
     args = [[a, "int"] for a in ("ad", "an", "bd", "bn", "cn")]
     plan = [("stacked", "default"), ("stacked", "jsonml"), ("collapsed", "default")] if quick else [("stacked", "default"), ("stacked", "jsonml"), ("stacked", "badgerfish"), ("collapsed", "default"), ("root-only", "default")]
     for mode, conv in plan:
